@@ -285,7 +285,14 @@ Fixpoint j2oas (name : option str) (s : schema) {struct s} : jres oschema :=
   | SBool false => Err EBoolFalse
   | SObj o =>
       match so_reference o with
-      | Some r => Ok (ORef r)
+      | Some r =>
+          (* A reference cannot carry siblings in OpenAPI 3.0; [Option<T>] of a
+             referenceable [T] arrives as {$ref, nullable: true} when it is a
+             whole body or response type: the nullability is kept by wrapping
+             the reference (SchemaData::default() with nullable = true) *)
+          if ext_nullable (so_extensions o)
+          then Ok (OItem (mkSData true false false false None None None None []) (KAllOf [ORef r]))
+          else Ok (ORef r)
       | None =>
           do ty <- match so_instance_type o with
                    | Some (Single t) => Ok (Some t)
